@@ -277,6 +277,7 @@ class Normaliser:
         # functions (regex on the full name) in which `if(c) { A; return; } B;` is rewritten to `if(c) { A; return; } else { B }`
         self.else_of_return = re.compile("|".join("(?:%s)" % k for k in else_of_return) or r"(?!x)x")
         self._eor = False
+        self.inlined = {}     # full name of a helper -> number of call sites where its body replaced the call
         # `if(c) continue; rest` directly in a loop body is read as `if(!c) { rest }`
         self.continue_guards = continue_guards
         self.state = {}       # id(fn) -> "busy" | "done"
@@ -958,8 +959,8 @@ class Normaliser:
     # ---------------------------------------------------------------------------------------------
     # helper inlining
     # ---------------------------------------------------------------------------------------------
-    def _callee_of(self, fn, call, depth):
-        """the repo helper a call may be replaced by, or None"""
+    def _callee_of(self, fn, call, depth, any_returns=False):
+        """the repo helper a call may be replaced by, or None (any_returns: several / early returns are acceptable - continuation form)"""
         call = strip(call)
         if call is not None and call.get("k") == "OpCall" and call.get("op") == "()" and call.get("ccls") == "<lambda>":
             return self._lambda_callee(fn, call, depth)
@@ -996,10 +997,12 @@ class Normaliser:
             return None
         rets = [x for x in walk(body, prune=lambda y: y.get("k") == "Lambda") if x.get("k") == "Return"]
         stmts = body.get("s", [])
-        if len(rets) > 1 or (rets and (not stmts or stmts[-1] is not rets[0])):
+        if not any_returns and (len(rets) > 1 or (rets and (not stmts or stmts[-1] is not rets[0]))):
             return None
         if any(x.get("k") == "Lambda" for x in walk(body)):
             return None
+        if callee.full not in self.inlined:
+            self.inlined[callee.full] = 0
         return callee
 
     def _drop_dead_closures(self, fn):
@@ -1071,6 +1074,7 @@ class Normaliser:
     def _splice(self, fn, call, callee, depth, result=None):
         """-> (statements, returned expression | None).  `result`: ('assign', Ref node of the receiving local) | ('decl', Var node) | None"""
         self.apply(callee, depth + 1)
+        self.inlined[callee.full] = self.inlined.get(callee.full, 0) + 1
         call = strip(call)
         if call.get("k") == "OpCall" and call.get("op") == "()":
             call = dict(call)
@@ -1148,12 +1152,140 @@ class Normaliser:
                     x["dk"] = "local"
         return True
 
+    @staticmethod
+    def _pure(n):
+        """expression without side effects whose value does not depend on when it is evaluated relative to a helper body that only touches its own locals
+        and objects it was handed: names, literals, member accesses, const accessors, dereferences, std::move/forward wrappers"""
+        for x in walk(n):
+            k = x.get("k")
+            if k in ("Assign", "New", "Delete", "Throw", "Lambda") or (k == "Un" and x.get("op") in ("++", "--")):
+                return False
+            if k in ("Call",) and (x.get("callee") or "") not in ("std::move", "std::forward"):
+                return False
+            if k == "MCall" and not (x.get("cconst") or (x.get("n") or "") in ("get", "operator->", "operator*", "first", "second")):
+                return False
+            if k == "OpCall" and x.get("op") not in ("->", "*", "[]", "==", "!=", "<", ">", "<=", ">=", "+", "-"):
+                return False
+        return True
+
+    def _tail_returns(self, stmts, make):
+        """replace every `return e;` of a statement list whose returns all sit in tail position (last statement, or last statement of both branches of a
+        trailing if/else) by make(e); False if a return is somewhere else"""
+        if not stmts:
+            return True
+        for x in stmts[:-1]:
+            if any(y.get("k") == "Return" for y in walk(x, prune=lambda z: z.get("k") == "Lambda")):
+                return False
+        last = stmts[-1]
+        if last.get("k") == "Return":
+            if last.get("e") is None:
+                return False
+            stmts[-1:] = make(last["e"])
+            return True
+        if last.get("k") == "Block":
+            return self._tail_returns(last["s"], make)
+        if last.get("k") == "If":
+            has = any(y.get("k") == "Return" for y in walk(last, prune=lambda z: z.get("k") == "Lambda"))
+            if not has:
+                return True
+            for key in ("then", "else"):
+                br = last.get(key)
+                if br is None:
+                    return False
+                if br.get("k") != "Block":
+                    br = self._mk("Block", br.get("l"), s=[br])
+                    last[key] = br
+                if not self._tail_returns(br["s"], make):
+                    return False
+            return True
+        return not any(y.get("k") == "Return" for y in walk(last, prune=lambda z: z.get("k") == "Lambda"))
+
+    def _else_of_return_list(self, stmts):
+        for i, st in enumerate(stmts[:-1]):
+            if st.get("k") == "If" and st.get("else") is None and _leaves_function(st.get("then")):
+                rest = stmts[i + 1:]
+                self._else_of_return_list(rest)
+                st["else"] = self._mk("Block", rest[0].get("l"), s=rest)
+                del stmts[i + 1:]
+                return
+        for st in stmts:
+            for key in ("then", "else"):
+                br = st.get(key) if st.get("k") == "If" else None
+                if br is not None and br.get("k") == "Block":
+                    self._else_of_return_list(br["s"])
+
+    def _continuation_inline(self, fn, e, depth):
+        """statement `f(a, helper(x));` (also `obj.f(...)`) whose other operands are pure: the helper's body with every `return r;` replaced by `f(a, r);`
+        (the value helper may have several / early returns; all of them must be in tail position once early returns are read as if/else)"""
+        args = e.get("a", [])
+        hits = []
+        for i, a in enumerate(args):
+            a0 = strip(a)
+            wrap = []
+            for _ in range(3):
+                if a0 is not None and ((a0.get("k") in ("Construct", "TempObj") and len(a0.get("a", [])) == 1) or
+                                       (a0.get("k") == "Call" and (a0.get("callee") or "") in ("std::move", "std::forward") and len(a0.get("a", [])) == 1)):
+                    wrap.append(a0)
+                    a0 = strip(a0["a"][0])
+            if a0 is not None and a0.get("k") in ("Call", "MCall") and self._callee_of(fn, a0, depth, any_returns=True) is not None:
+                hits.append((i, a0, wrap))
+        if len(hits) != 1:
+            return None
+        i, hcall, wrap = hits[0]
+        others = [a for j, a in enumerate(args) if j != i] + ([e["obj"]] if e.get("obj") is not None else [])
+        if not all(self._pure(x) for x in others):
+            return None
+        callee = self._callee_of(fn, hcall, depth, any_returns=True)
+        if (callee.type(callee.d.get("ret")) or "").strip() == "void":
+            return None
+        self.apply(callee, depth + 1)
+        hc = strip(hcall)
+        line = e.get("l")
+        cross = callee.facts is not fn.facts
+        tmap = (lambda t: self._tid(fn, callee.type(t))) if cross else None
+        caller_names = {v.get("n") for v in fn.nodes() if v.get("k") == "Var"} | {p["n"] for p in fn.params}
+        dmap = {}
+        for v in list(callee.params) + [x for x in walk(callee.body) if x.get("k") == "Var"]:
+            dmap[v["d"]] = (_fresh_decl(), (v["n"] + "'") if v["n"] in caller_names else None)
+        body = [self._clone(x, dmap, tmap) for x in callee.body.get("s", [])]
+        self._else_of_return_list(body)
+
+        def make(rexpr):
+            st = self._clone(e)
+            tgt = st["a"][i]
+            # put the returned expression where the helper call stood (inside the same std::move / conversion wrappers)
+            holder, key, idx = st["a"], None, i
+            cur = strip(tgt)
+            depthw = 0
+            while depthw < len(wrap):
+                holder, idx = cur["a"], 0
+                cur = strip(cur["a"][0])
+                depthw += 1
+            holder[idx] = rexpr
+            return [st]
+        if not self._tail_returns(body, make):
+            return None
+        pre = []
+        for p_, a in zip(callee.params, hc.get("a", [])):
+            ty = callee.type(p_.get("t")) or ""
+            nd, nn = dmap[p_["d"]]
+            var = {"k": "Var", "i": self._nid(), "l": line, "n": nn or p_["n"], "d": nd, "t": (tmap(p_.get("t")) if tmap else p_.get("t")), "init": a,
+                   "ref": ty.rstrip().endswith("&"), "const": ty.startswith("const"), "inlined_param": callee.name}
+            pre.append(self._mk("Decl", line, vars=[var]))
+        self.inlined[callee.full] = self.inlined.get(callee.full, 0) + 1
+        self.note(fn, "call of %s() inside the statement at line %s replaced by its body (the statement continues at every return)" % (callee.name, line))
+        return pre + body
+
     def _inline_stmt(self, fn, s, depth):
         e = strip(s)
         if e is None:
             return None
         k = e.get("k")
         line = e.get("l")
+        if k in ("Call", "MCall") and self._callee_of(fn, e, depth) is None:
+            r = self._continuation_inline(fn, e, depth)
+            if r is not None:
+                return r
         if k in ("Call", "MCall") or (k == "OpCall" and e.get("op") == "()"):
             callee = self._callee_of(fn, e, depth)
             if callee is None:
